@@ -26,11 +26,31 @@ EXTENDS Integers, Sequences, FiniteSets
 M   == 1000000
 Inf == 2000000000
 NegZero == 0 - 2000000001      \* the float -0.0: numerically 0, generated next to every real bound at 0
-Num(v) == IF v = NegZero THEN 0 ELSE v
+\* "barely outside / barely inside" probes, far below the micro-unit: an infinitesimal offset next to a bound.
+\* The harness concretises them per float type (values must be representable in the parameter's type):
+\*   TinyNeg / TinyPos   -+1e-50 for an f64 parameter, -+1e-30 for an f32 parameter   (next to a bound at 0)
+\*   OneMinus / OnePlus  1 -+ 1e-9 for f64, 1 - 2^-24 / 1 + 2^-23 (adjacent floats) for f32   (next to a bound at 1)
+TinyNeg  == 0 - 2000000002
+TinyPos  == 0 - 2000000003
+OneMinus == 0 - 2000000004
+OnePlus  == 0 - 2000000005
+\* a value is the pair (Mic, Sub): micro-units and the sign of the infinitesimal offset, ordered lexicographically
+Mic(v) == CASE v \in {NegZero, TinyNeg, TinyPos} -> 0 [] v \in {OneMinus, OnePlus} -> M [] OTHER -> v
+Sub(v) == CASE v \in {TinyNeg, OneMinus} -> 0 - 1 [] v \in {TinyPos, OnePlus} -> 1 [] OTHER -> 0
+Lt(v, b) == Mic(v) < b \/ (Mic(v) = b /\ Sub(v) < 0)         \* v < b for a plain bound b
+Le(v, b) == Mic(v) < b \/ (Mic(v) = b /\ Sub(v) <= 0)
+Gt(v, b) == ~Le(v, b)
+Ge(v, b) == ~Lt(v, b)
+At(v, b) == Mic(v) = b /\ Sub(v) = 0
+LeVV(u, v) == Mic(u) < Mic(v) \/ (Mic(u) = Mic(v) /\ Sub(u) <= Sub(v))
+Num(v) == Mic(v)                \* what a read-back in micro-units shows
 
 Fd(n, ty, lo, lok, hi, hik, d, typ) ==
   [n |-> n, ty |-> ty, lo |-> lo, lok |-> lok, hi |-> hi, hik |-> hik,
-   d |-> d, on |-> TRUE, rd |-> TRUE, typ |-> typ, skip |-> {}]
+   d |-> d, on |-> TRUE, rd |-> TRUE, typ |-> typ, skip |-> {}, cush |-> FALSE]
+\* the guard has a machine-epsilon cushion around the bound (decision tree: `< F::epsilon()` for "greater
+\* than zero"): the infinitesimal probes next to that bound are UNSPECIFIED, not judged
+Cushion(fd) == [fd EXCEPT !.cush = TRUE]
 Skip(fd, S) == [fd EXCEPT !.skip = S]     \* grid values that are never generated (the fit of a builder that
                                           \* passes checking does not terminate there -- not a C04 matter)
 Off(fd)  == [fd EXCEPT !.on = FALSE]       \* field absent in the default builder (Option / enum variant)
@@ -141,7 +161,7 @@ D_svr == Alg(
 
 (* decision tree: "Minimum impurity decrease should be greater than zero"; other limits undocumented *)
 D_tree == Alg(
-  << RealGt0("min_impurity_decrease", 10, {10}), Off(FreeC("max_depth", 0, {1, 3})),
+  << Cushion(RealGt0("min_impurity_decrease", 10, {10})), Off(FreeC("max_depth", 0, {1, 3})),
      FreeR("min_weight_split", 2 * M, {2 * M, 3 * M}), FreeR("min_weight_leaf", M, {M, 2 * M}) >>,
   << Set1("min_impurity_decrease", 1), Set1("max_depth", 2), Set1("min_weight_split", 3), Set1("min_weight_leaf", 4) >>,
   {"fit"}, "", "none")
